@@ -13,9 +13,9 @@ use vref::sec::Licence;
 /// one coordinate per dimension; 0 is the default
 pub type Assign = Vec<usize>;
 
-pub const DIM_NAMES: [&str; 31] = [
+pub const DIM_NAMES: [&str; 34] = [
     "use_nla", "restricted_admin", "blank_creds", "auto_logon", "use_hash", "client_name", "screen", "layout", "credentials", "select_ssl_although_nla", "user_id", "share_id", "version", "sc_core_optional", "block_order", "unknown_block", "channels", "licence",
-    "capabilities", "source_descriptor", "reactivations", "reuse_share_id_on_reactivation", "licence_security_flags", "set_error_info_during_finalization", "builder_call_order", "data_priority_of_server_indications", "ber_length_width_of_connect_response", "ntlm_challenge_maxlen_fields", "ntlm_challenge_without_version_or_target_info_flag", "ntlm_challenge_payload_layout", "negotiation_response_flags",
+    "capabilities", "source_descriptor", "reactivations", "reuse_share_id_on_reactivation", "licence_security_flags", "set_error_info_during_finalization", "builder_call_order", "data_priority_of_server_indications", "ber_length_width_of_connect_response", "ntlm_challenge_maxlen_fields", "ntlm_challenge_without_version_or_target_info_flag", "ntlm_challenge_payload_layout", "negotiation_response_flags", "earlier_connections_of_the_same_connector", "sc_security_optional_length_fields", "licence_security_header_flags_hi",
 ];
 
 pub fn names() -> Vec<String> {
@@ -23,7 +23,7 @@ pub fn names() -> Vec<String> {
 }
 
 pub fn dim_sizes() -> Vec<usize> {
-    vec![2, 2, 2, 2, 2, names().len(), 4, 3, 3, 2, 6, 4, 5, 3, 6, 2, 3, 5, 4, 3, 4, 2, 2, 5, 5, 4, 4, 3, 5, 4, 5]
+    vec![2, 2, 2, 2, 2, names().len(), 4, 3, 3, 2, 6, 4, 5, 3, 6, 2, 3, 5, 4, 3, 4, 2, 2, 5, 6, 4, 4, 3, 5, 4, 5, 5, 2, 3]
 }
 
 pub fn build(a: &Assign) -> (ConnCfg, ServerParams) {
@@ -64,12 +64,15 @@ pub fn build(a: &Assign) -> (ConnCfg, ServerParams) {
     p.reuse_share_id = a[21] == 1;
     p.licence_sec_flags = [0x0080u16, 0x0280][a[22]];
     p.errinfo_before = a[23];
-    c.builder_order = a[24] as u8;
+    c.builder_order = [0u8, 1, 2, 3, 4, 5][a[24]];
     p.sdi_priority = [0x70u8, 0x30, 0xB0, 0xF0][a[25]];
     p.ber_wide = a[26];
     p.ntlm.maxlen_override = [None, Some(0u16), Some(0xFFFF)][a[27]];
     p.ntlm.layout = a[29] as u8;
     p.cc_flags = [0u8, 0x01, 0x0F, 0x1F, 0x04][a[30]];
+    c.earlier_connections = a[31] as u8;
+    p.sc_security_optional_lengths = a[32] == 1;
+    p.licence_flags_hi = [0u16, 0xBEEF, 0x0001][a[33]];
     p.ntlm.flags &= ![0, vref::ntlm::F_VERSION, vref::ntlm::F_TARGET_INFO, vref::ntlm::F_VERSION | vref::ntlm::F_TARGET_INFO, vref::ntlm::F_UNICODE][a[28]];
     (c, p)
 }
@@ -133,7 +136,7 @@ impl Prop for C03 {
         d
     }
     fn rule(&self) -> String {
-        format!("cases = (connector configuration, conforming-server parameters) over 31 dimensions ({} alternatives in total): NLA, restricted admin, blank credentials, auto logon, password|hash, 9 client names, 4 screen sizes, 3 layouts, 3 credential sets, SSL although NLA offered, 6 user ids (1001..65535), 4 share ids, 5 versions, optional SC_CORE fields, 6 block orders, unknown block, SC_NET padding, 5 licence variants, 4 capability lists (incl. the Windows capture, unknown and empty sets), 3 source-descriptor lengths, 0, 1, 2 or 4 reactivations, fresh or reused share id on reactivation, licence security-header flags 0x0080 / 0x0280, a Set Error Info (ERRINFO_NONE) PDU before each of the four server finalization PDUs, send-data indications at top / high / medium / low priority, BER lengths of the MCS connect response in minimal and 1..3-byte long forms, MaxLen fields of the NTLM CHALLENGE equal to Len / 0 / 0xFFFF, NTLM CHALLENGE flags without NEGOTIATE_VERSION / without NEGOTIATE_TARGET_INFO / without both (the message layout follows the flags) / without NEGOTIATE_UNICODE (an OEM session), 4 payload layouts of the CHALLENGE (name then info, info then name, unreferenced bytes after / before the fields), RDP_NEG_RSP flags 0x00 / 0x01 / 0x0F / 0x1F / 0x04 (every defined bit incl. the reserved one a client should ignore), 5 orders of the Connector builder calls (flags then credentials, credentials then flags, re-configuration of a connector set up for another account with every flag inverted, flags-credentials-flags, only the calls that differ from the defaults of Connector::new()). Enumerated: the default, every single alternative, every pair, every triple (every quadruple in thorough). Each case is a full real Connector::connect over real TLS + activation + 4 input events + shutdown; oracle: success, mandated message order, no message written while the reply it depends on is unread, identifiers echoed. Non-trivial: at least one non-default coordinate.", dim_sizes().iter().map(|s| s - 1).sum::<usize>())
+        format!("cases = (connector configuration, conforming-server parameters) over 34 dimensions ({} alternatives in total): NLA, restricted admin, blank credentials, auto logon, password|hash, 9 client names, 4 screen sizes, 3 layouts, 3 credential sets, SSL although NLA offered, 6 user ids (1001..65535), 4 share ids, 5 versions, optional SC_CORE fields, 6 block orders, unknown block, SC_NET padding, 5 licence variants, 4 capability lists (incl. the Windows capture, unknown and empty sets), 3 source-descriptor lengths, 0, 1, 2 or 4 reactivations, fresh or reused share id on reactivation, licence security-header flags 0x0080 / 0x0280, a Set Error Info (ERRINFO_NONE) PDU before each of the four server finalization PDUs, send-data indications at top / high / medium / low priority, BER lengths of the MCS connect response in minimal and 1..3-byte long forms, MaxLen fields of the NTLM CHALLENGE equal to Len / 0 / 0xFFFF, NTLM CHALLENGE flags without NEGOTIATE_VERSION / without NEGOTIATE_TARGET_INFO / without both (the message layout follows the flags) / without NEGOTIATE_UNICODE (an OEM session), 4 payload layouts of the CHALLENGE (name then info, info then name, unreferenced bytes after / before the fields), RDP_NEG_RSP flags 0x00 / 0x01 / 0x0F / 0x1F / 0x04 (every defined bit incl. the reserved one a client should ignore), a Connector object that was used before (one / two earlier attempts for another account with every flag inverted answered with RDP_NEG_FAILURE, one earlier complete connection with that other configuration, one earlier refused attempt with the same configuration) and then re-configured, SC_SECURITY with its optional (zero) length fields, a licensing PDU whose flagsHi holds arbitrary data, 6 orders of the Connector builder calls (flags then credentials, credentials then flags, re-configuration of a connector set up for another account with every flag inverted, flags-credentials-flags, only the calls that differ from the defaults of Connector::new(), the flag setters in the opposite order). Enumerated: the default, every single alternative, every pair, every triple (every quadruple in thorough). Each case is a full real Connector::connect over real TLS + activation + 4 input events + shutdown; oracle: success, mandated message order, no message written while the reply it depends on is unread, identifiers echoed. Non-trivial: at least one non-default coordinate.", dim_sizes().iter().map(|s| s - 1).sum::<usize>())
     }
     fn assumptions(&self) -> Vec<String> {
         vec![
@@ -143,7 +146,7 @@ impl Prop for C03 {
         ]
     }
     fn coverage_extra(&self) -> Value {
-        json!({"deviation_bound_completed": self.bound, "dimensions": DIM_NAMES, "dimension_sizes": dim_sizes()})
+        json!({"deviation_bound_completed": self.bound, "dimensions": DIM_NAMES.to_vec(), "dimension_sizes": dim_sizes()})
     }
     fn mem_rule(&self, _p: usize, maxreq: usize, _b: u64) -> Option<String> {
         if maxreq > (8 << 20) {
@@ -264,7 +267,7 @@ impl Prop for C04 {
         }
     }
     fn rule(&self) -> String {
-        "cases = full conversations (as C03) whose every client message is parsed by the strict reference parsers: TPKT/X.224, BER connect-initial, PER conference-create-request (length = 14 + blocks), CS_CORE/CS_SECURITY/CS_NET block lengths, clientName = 32 bytes holding <=15 UTF-16 units + NUL, info packet cb* fields / terminators / extended info, share control totalLength, share data lengths, confirm-active counts and per-type capability sizes, input PDU numEvents, NTLM NEGOTIATE/AUTHENTICATE descriptor triples, strict DER TSRequest/TSCredentials. Configurations: default, every single alternative and every pair of the 31 C03 dimensions (every triple in thorough), and every string of the Unicode alphabet (class^len for class in {a, é, 日, 😀} x len in {0,1,7,8,15,16,17,31,32,64}, every mixed string of <=3 code points, the boundary code points of every UTF-8/UTF-16 encoding length) as client name, domain, user and password, with NLA on and off; plus client names in which each boundary supplementary code point straddles / ends at the 15-unit cut; user names and passwords of 8000..70000 UTF-16 units (the client-info PDU then exceeds a TPKT frame: well formed or not sent at all); plus the length sweep: domain, user and password of every length 0..140 UTF-16 units (0..300 thorough) against an RDP5 and an RDP4 server (info packet with and without extended info), NLA on and off, so that every emitted length field crosses its 0x7f/0x80 and 0xff/0x100 encoding boundaries. Non-trivial: every case but the default.".into()
+        "cases = full conversations (as C03) whose every client message is parsed by the strict reference parsers: TPKT/X.224, BER connect-initial, PER conference-create-request (length = 14 + blocks), CS_CORE/CS_SECURITY/CS_NET block lengths, clientName = 32 bytes holding <=15 UTF-16 units + NUL, info packet cb* fields / terminators / extended info, share control totalLength, share data lengths, confirm-active counts and per-type capability sizes, input PDU numEvents, NTLM NEGOTIATE/AUTHENTICATE descriptor triples, strict DER TSRequest/TSCredentials. Configurations: default, every single alternative and every pair of the 34 C03 dimensions (every triple in thorough), and every string of the Unicode alphabet (class^len for class in {a, é, 日, 😀} x len in {0,1,7,8,15,16,17,31,32,64}, every mixed string of <=3 code points, the boundary code points of every UTF-8/UTF-16 encoding length) as client name, domain, user and password, with NLA on and off; plus client names in which each boundary supplementary code point straddles / ends at the 15-unit cut; user names and passwords of 8000..70000 UTF-16 units (the client-info PDU then exceeds a TPKT frame: well formed or not sent at all); plus the length sweep: domain, user and password of every length 0..140 UTF-16 units (0..300 thorough) against an RDP5 and an RDP4 server (info packet with and without extended info), NLA on and off, so that every emitted length field crosses its 0x7f/0x80 and 0xff/0x100 encoding boundaries. Non-trivial: every case but the default.".into()
     }
     fn assumptions(&self) -> Vec<String> {
         vec![
@@ -390,9 +393,20 @@ impl Prop for C17 {
                 }
                 let sels: Vec<u32> = if c.use_nla { vec![2, 1] } else { vec![1] };
                 for sel in sels {
-                    for order in 0..5u8 {
+                    for order in 0..6u8 {
                         let mut c2 = c.clone();
                         c2.builder_order = order;
+                        cs.push((c2, sel, 0u32, 0u32));
+                    }
+                    // RDP_NEG_RSP flags (0xF1000000 | flags in the version slot): what the server announces there does not
+                    // change what the configuration asked for
+                    for flags in [0x01u32, 0x08, 0x17, 0x1F] {
+                        cs.push((c.clone(), sel, 0xF100_0000 | flags, 0u32));
+                    }
+                    // the connector object served other connections before (see ConnCfg::earlier_connections)
+                    for earlier in 1..=4u8 {
+                        let mut c2 = c.clone();
+                        c2.earlier_connections = earlier;
                         cs.push((c2, sel, 0u32, 0u32));
                     }
                     // server versions (info packet with / without extended info) and CHALLENGE flag sets
@@ -415,10 +429,10 @@ impl Prop for C17 {
     }
     fn describe(&self, idx: u64) -> Value {
         let (c, s, ver, without) = &self.cases[idx as usize];
-        json!({"idx": idx, "connector": c, "server_selects": s, "server_version_override": format!("{:#x}", ver), "challenge_flags_left_out": format!("{:#x}", without)})
+        json!({"idx": idx, "connector": c, "server_selects": s, "server_version_override": (if ver >> 24 == 0xF1 { "none".to_string() } else { format!("{:#x}", ver) }), "negotiation_response_flags": (if ver >> 24 == 0xF1 { format!("{:#x}", ver & 0xFF) } else { "0x0".to_string() }), "challenge_flags_left_out": format!("{:#x}", without)})
     }
     fn rule(&self) -> String {
-        "cases = all 32 combinations of {NLA, restricted admin, blank credentials, auto logon, password|hash} x 6 credential sets incl. each of domain / user / password empty (every alphabet string as password in thorough) x every protocol the server may select among those offered x 5 orders of the Connector builder calls, x server versions 0x00080001 / 5 / C, x CHALLENGE flag sets without SEAL / SIGN / both / 128 / ALWAYS_SIGN / UNICODE (an OEM session) / UNICODE and SEAL / VERSION / TARGET_INFO (the password must not be readable in any CredSSP message, NTLM token fields included), plus servers selecting a protocol that was not offered (incl. HYBRID although NLA is off, and standard RDP security): refused with no CredSSP message, no Client Info and no password anywhere (incl. re-configuring a connector that was set up for another account with every flag inverted); full real connect over real TLS; oracle: decrypted TSCredentials and parsed Client Info match the mode table, the negotiation request announces restricted admin, auto-logon bit iff requested, the password (UTF-8 and UTF-16LE) appears neither on the raw transport nor in any NTLM token, credential-bearing messages only inside TLS. Non-trivial: all.".into()
+        "cases = all 32 combinations of {NLA, restricted admin, blank credentials, auto logon, password|hash} x 6 credential sets incl. each of domain / user / password empty (every alphabet string as password in thorough) x every protocol the server may select among those offered x 6 orders of the Connector builder calls, x server versions 0x00080001 / 5 / C, x CHALLENGE flag sets without SEAL / SIGN / both / 128 / ALWAYS_SIGN / UNICODE (an OEM session) / UNICODE and SEAL / VERSION / TARGET_INFO (the password must not be readable in any CredSSP message, NTLM token fields included), plus servers selecting a protocol that was not offered (incl. HYBRID although NLA is off, and standard RDP security): refused with no CredSSP message, no Client Info and no password anywhere (incl. re-configuring a connector that was set up for another account with every flag inverted); full real connect over real TLS; oracle: decrypted TSCredentials and parsed Client Info match the mode table, the negotiation request announces restricted admin, auto-logon bit iff requested, the password (UTF-8 and UTF-16LE) appears neither on the raw transport nor in any NTLM token, credential-bearing messages only inside TLS. Non-trivial: all. Also every combination under RDP_NEG_RSP flags 0x01 / 0x08 / 0x17 / 0x1F, 6 orders of the builder calls, and a Connector object that served 1-2 refused attempts or a complete connection for another account before being re-configured.".into()
     }
     fn assumptions(&self) -> Vec<String> {
         vec!["with a password hash the connector has no clear-text password: both structures then carry an empty password".into()]
@@ -433,7 +447,9 @@ impl Prop for C17 {
     fn run_case(&mut self, idx: u64) -> Outcome {
         let (c, sel, ver, without) = self.cases[idx as usize].clone();
         let mut p = ServerParams { selected: sel, ..Default::default() };
-        if ver != 0 {
+        if ver >> 24 == 0xF1 {
+            p.cc_flags = (ver & 0xFF) as u8;
+        } else if ver != 0 {
             p.version = ver;
         }
         p.ntlm.flags &= !without;
